@@ -257,6 +257,9 @@ inductive Flow
     the server sets it after the first ClientHello) -/
 def v13Active (c : Cfg) : St → Bool
   | .cWaitSH | .sWaitCH => false
+  -- positions that exist only inside the TLS 1.3 flows
+  | .cWaitSH2 | .c13WaitEE | .c13WaitCRorCert | .c13WaitCert | .c13WaitCV | .c13WaitFin
+  | .sWaitCH2 | .s13WaitCert | .s13WaitCV | .s13WaitFin | .phaWaitCV | .phaWaitFin => true
   | _ => c.isTls13
 
 /-- `self.heartbeat_supported` at this point of a handshake -/
